@@ -195,6 +195,10 @@ FarAbove(c) == IF c.hi8[4] >= 128 THEN <<>> ELSE <<W(<<255, 255, 255, 255, 255, 
 ArNT(t) == SumTo([k \in 1..Len(t) |-> Len(t[k])], Len(t))
 ArFlat(t) == Flat([k \in 1..Len(t) |-> [i \in 1..Len(t[k]) |-> [b |-> t[k][i].b, l |-> t[k][i].l, k |-> k]]])
 Overlap(b1, l1, b2, l2) == b1 < b2 + l2 /\ b2 < b1 + l1
+\* the "every set header" view (readelf's): a set that holds nothing but its terminator is represented by that null tuple
+\* (z = TRUE: address and length are the literal 0, not a grid point), every other set by its tuples
+ArFlatE(t) == Flat([k \in 1..Len(t) |-> IF Len(t[k]) = 0 THEN <<[b |-> 0, l |-> 0, k |-> k, z |-> TRUE]>>
+                                        ELSE [i \in 1..Len(t[k]) |-> [b |-> t[k][i].b, l |-> t[k][i].l, k |-> k, z |-> FALSE]]])
 
 \* ---- declarative lookup: the set whose tuple contains a (0 = none)
 ArHits(t, a) == {e \in Range(ArFlat(t)) : e.b <= a /\ a < e.b + e.l}
@@ -563,7 +567,8 @@ ArCase ==
    ans |-> [a \in 1..(GridMax + 2) |-> CuAt(obj, a - 1)],                          \* set index, 0 = none
    cls |-> [a \in 1..(GridMax + 2) |-> QClass(obj, a - 1)],
    sets |-> ArSetView(obj, par),
-   ent |-> [i \in 1..Len(f) |-> <<f[i].b, f[i].l, f[i].k>>]]
+   ent |-> [i \in 1..Len(f) |-> <<f[i].b, f[i].l, f[i].k>>],
+   entE |-> LET g == ArFlatE(obj) IN [i \in 1..Len(g) |-> <<g[i].b, g[i].l, g[i].k, g[i].z>>]]
 SecLine(S) == [k |-> "sec", id |-> S.id, le |-> S.le, info |-> S.bytes, abbrev |-> S.abbrev, offs |-> S.offs, sizes |-> S.sizes,
                dies |-> S.dies]
 NmCase ==
